@@ -104,9 +104,9 @@ GD = {
  "C04": ["flow-model", "hash-lengths"], "C05": ["bump-model"], "C06": ["render-model", "smart-tier", "smart-tier-abstract"],
  "C07": ["canon-roundtrip", "canon-semver-u64", "pep-roundtrip", "semver-to-pep-fixed", "out-of-range"], "C08": ["grammar-mutants", "check-report"],
  "C09": ["spellings", "grammar-mutants", "check-report"], "C10": ["rand-pairs", "rand-triples", "max-tag"], "C11": ["rand-pairs", "rand-triples", "max-tag"],
- "C12": ["roundtrip", "one-rule-broken", "malformed-documents"], "C13": ["argv-fuzz"],
+ "C12": ["roundtrip", "one-rule-broken", "trailing-content", "malformed-documents"], "C13": ["argv-fuzz"],
  "C15": ["context-vs-renderer", "function-contracts", "template-valued-flags", "literal-context"], "C16": ["rand-unicode", "presets", "template-fn"],
- "C17": ["rand-instants", "cli-calver"],
+ "C17": ["rand-instants", "beyond-i64", "cli-calver"],
 }
 checks, na = [], []
 for pid in sorted(P):
